@@ -104,14 +104,14 @@ pub fn mix64(mut x: u64) -> u64 {
 // ------------------------------------------------------------------------------------------
 // keys and values
 // ------------------------------------------------------------------------------------------
-pub trait KeyT: Hash + Eq + Clone + Send + Sync + 'static {
+pub trait KeyT: Hash + Eq + Clone + Send + Sync + serde::Serialize + serde::de::DeserializeOwned + 'static {
     const DROP: bool;
     fn mk(id: u64, stamp: u64) -> Self;
     fn id(&self) -> u64;
     fn stamp(&self) -> u64;
     fn serial(&self) -> u64;
 }
-pub trait ValT: Clone + PartialEq + Send + Sync + 'static {
+pub trait ValT: Clone + PartialEq + Send + Sync + serde::Serialize + serde::de::DeserializeOwned + 'static {
     const DROP: bool;
     fn mk(v: u64) -> Self;
     fn val(&self) -> u64;
